@@ -146,6 +146,10 @@ func init() {
 		r.searchOnly = int(intArg(a[0]))
 		return nil, actDone
 	})
+	reg(vrt+"SearchBudget", func(r *Run, g *G, a []Value) (Value, action) {
+		r.searchBudget = int(intArg(a[0]))
+		return nil, actDone
+	})
 	reg(vrt+"Thorough", func(r *Run, g *G, a []Value) (Value, action) { return r.eng.opts.Tier == "thorough", actDone })
 	// Quiesce lets every other goroutine run until none of them can make progress (no schedule
 	// exploration): used by harnesses to wait for fire-and-forget goroutines of the code under test.
@@ -325,11 +329,11 @@ func init() {
 
 	// atomics
 	atomicLoad := func(r *Run, g *G, a []Value) (Value, action) {
-		r.hbAtomic(g, a[0].(Ptr))
+		r.hbAtomicLoad(g, a[0].(Ptr))
 		return loadVal(a[0].(Ptr)), actSync
 	}
 	atomicStore := func(r *Run, g *G, a []Value) (Value, action) {
-		r.hbAtomic(g, a[0].(Ptr))
+		r.hbAtomicStore(g, a[0].(Ptr))
 		storeVal(a[0].(Ptr), a[1])
 		return nil, actSync
 	}
